@@ -81,7 +81,7 @@ func diffNestedFlat(sc *scen.Scenario) (fs []scen.Finding, nested, flat []scen.O
 
 func runC10(c *Cfg) {
 	r := c.Rep
-	nr := c.Pick(20000, 300000)
+	nr := c.Pick(20000, 1000000)
 	parallel(c, nr, func(i int) {
 		rg := c.Rng("c10", i)
 		var sc *scen.Scenario
